@@ -15,15 +15,16 @@ Fin == [k |-> "fin"]
 AlphaBuf ==
   {P("pn", 0, 5, -70), P("pd", 0, 1, 64), [k |-> "po", c |-> 0], P("pn", 1, 0, 0), P("pd", 1, -3, 3),
    Ts(0), O("msg", 0, 3, 0), O("x_auth_logout", 1, 0, 0), Fin}
+\* cid 70: the message-id part of PLAYER_NEW is 3 bytes, of PLAYER_DIFF 2 bytes (splits inside it)
 AlphaBufSmall ==
-  {P("pn", 0, 5, -70), P("pd", 0, 1, 64), Ts(0), O("msg", 0, 2, 0), Fin}
+  {P("pn", 70, 5, -70), P("pd", 70, 1, 64), Ts(0), O("msg", 0, 2, 0), Fin}
 
 Seqs == UNION {[1..n -> Alpha] : n \in 0..MaxItems}
 \* all truncations of the encodings, and the complete streams
 Streams ==
   {[ver |-> 2, items |-> its, cut |-> 0, cl |-> 0] : its \in Seqs}
   \cup {[ver |-> 2, items |-> its, cut |-> 1, cl |-> l] : its \in {x \in Seqs : Len(x) > 0 /\ RLen(x[Len(x)]) > 0}, l \in 0..4}
-  \cup {[ver |-> 2, items |-> its, cut |-> 2, cl |-> l] : its \in {x \in Seqs : Len(x) > 0 /\ KLen(x[Len(x)]) > 1}, l \in 1..1}
+  \cup {[ver |-> 2, items |-> its, cut |-> 2, cl |-> l] : its \in {x \in Seqs : Len(x) > 0 /\ KLen(x[Len(x)]) > 1}, l \in 1..2}
   \cup {[ver |-> 2, items |-> <<>>, cut |-> 3, cl |-> l] : l \in 0..(H - 1)}
 StreamSet == {s \in Streams : WellFormed(s)}
 
